@@ -9,6 +9,9 @@ package main
 //	    V = independent validator (kaptinlin/jsonschema, format assertion on) on the ORIGINAL document
 //	    R = independent validator on ToJSONSchema(FromJSONSchema(doc)) (round trip; "-" when that conversion fails)
 //	    The property on the implementation alone: P = V and R = V.
+//	    A fourth column PI ("~" when not applicable): the Parse verdict when integral numbers of the instance are handed
+//	    over as Go int — only for documents whose numbers can only meet integer schemas (no number type, no numeric
+//	    const/enum, no untyped position) — so that integer bounds are exercised although Int() rejects float64.
 //
 //	D  ::= true | false | ( node KW* )
 //	KW ::= ( type T ) | ( types T* ) | ( minLength N ) | ( maxLength N ) | ( pattern PAT ) | ( minimum Q ) | ( maximum Q )
@@ -801,6 +804,78 @@ func outcome(sch *lib.Schema, strict bool) (string, core.ZodSchema) {
 	return "ok", z
 }
 
+// intOnly: every position of the document that can see a number is an integer schema.
+func intOnly(d *D) (ok bool, sawInt bool) {
+	if d == nil {
+		return true, false
+	}
+	if d.Bool != nil {
+		return !*d.Bool, false
+	}
+	var types []string
+	for _, k := range d.Kws {
+		switch k.Name {
+		case "type", "types":
+			types = k.Strs
+		case "const", "enum":
+			for _, p := range k.Prims {
+				if p.T == "q" {
+					return false, false
+				}
+			}
+			return true, false
+		case "ref", "anyOf", "oneOf", "allOf", "other", "not", "format":
+			return false, false
+		}
+	}
+	if len(types) == 0 {
+		return false, false
+	}
+	ok = true
+	for _, t := range types {
+		switch t {
+		case "number":
+			return false, false
+		case "integer":
+			sawInt = true
+		case "array":
+			for _, k := range d.Kws {
+				var subs []*D
+				if k.Name == "items" {
+					subs = []*D{k.Sub}
+				} else if k.Name == "prefixItems" {
+					subs = k.Subs
+				}
+				for _, sd := range subs {
+					o, si := intOnly(sd)
+					ok = ok && o
+					sawInt = sawInt || si
+				}
+			}
+			if d.get("items") == nil {
+				ok = false // untyped rest elements
+			}
+		case "object":
+			return false, false
+		}
+	}
+	return ok, sawInt
+}
+
+func intify(v any) any {
+	switch x := v.(type) {
+	case float64:
+		if x == float64(int64(x)) {
+			return int(x)
+		}
+	case []any:
+		for i := range x {
+			x[i] = intify(x[i])
+		}
+	}
+	return v
+}
+
 func hasKnownFormat(d *D) bool {
 	if d == nil || d.Bool != nil {
 		return false
@@ -950,7 +1025,16 @@ func main() {
 			} else if rt != nil {
 				r = b01(rt.ValidateJSON([]byte(js)).IsValid())
 			}
-			obs := p + " " + vv + " " + r
+			pi := "~"
+			if io, si := intOnly(d); io && si {
+				var v2 any
+				_ = json.Unmarshal([]byte(js), &v2)
+				v2 = intify(v2)
+				var e2 error
+				pm2 := hx.Safely(func() { _, e2 = z.ParseAny(v2) })
+				pi = b01(pm2 == "" && e2 == nil)
+			}
+			obs := p + " " + vv + " " + r + " " + pi
 			out.Count("verdict:" + obs)
 			out.Emit("c11 inst "+text+" "+it, obs)
 		}
